@@ -126,7 +126,10 @@ let () =
            domain; in a known-finding zone (a window that was not written whole, ...) the decoded
            tensor is not a sound tensor anyway and the implementation's token is taken over *)
         let f_impl = (match List.rev (String.split_on_char ' ' impl) with t :: _ when String.length t > 2 && String.sub t 0 2 = "F=" -> t | _ -> "F=same") in
-        let refix x = if guard = "" then x else Str.global_replace (Str.regexp_string "F=same") f_impl x in
+        (* (a lazily transposed source is written with its permuted strides and read back without
+           the pending transpose: the decoded tensor is flag-unsound in the sense of F5 - elements
+           agree, raw-path consumers such as ToMat64 do not; outside C14's statement) *)
+        let refix x = if guard = "" && d.d_old = None then x else Str.global_replace (Str.regexp_string "F=same") f_impl x in
         let model = refix model and spec = refix spec in
         let cls =
           if model = spec then "" else
